@@ -429,6 +429,9 @@ class Verdict:
                 print("  signature=%s" % sig)
                 print("  %s" % what[:600])
         if os.environ.get("VERIF_DEBUG"):
+            with open(os.path.join(BUILD, "debug-sigs-%s.txt" % self.prop), "w") as df:
+                for sig, what, _ in self.violations:
+                    df.write(sig + "\n")
             import collections
             c = collections.Counter()
             ex = {}
